@@ -93,7 +93,7 @@ impl Utf8Decoder {
         }
     }
 
-    fn consume(&mut self) -> char {
+    fn consume(&mut self) -> Option<char> {
         let result = utf8_decode(&self.buffer[..self.offset]);
         self.reset();
         result
@@ -126,9 +126,13 @@ impl Decoder for Utf8Decoder {
                     return Err(Error::new(ErrorKind::InvalidInput, "utf8 decoder failed"));
                 }
                 Some(state) if UTF8DFA.info(state).is_accepting => {
+                    use std::io::{Error, ErrorKind};
                     self.push(*byte);
                     buf.consume(consume);
-                    return Ok(Some(self.consume()));
+                    return match self.consume() {
+                        Some(c) => Ok(Some(c)),
+                        None => Err(Error::new(ErrorKind::InvalidInput, "utf8 decoder failed")),
+                    };
                 }
                 Some(state) => {
                     self.push(*byte);
@@ -532,7 +536,7 @@ impl Matcher for KittyKeyboardMatcher {
 
     fn decode(&self, data: &[u8]) -> Option<Self::Item> {
         let data = &data[2..data.len() - 1]; // skip CSI and `u`
-        if data[0] == b'?' {
+        if data.first() == Some(&b'?') {
             let level = number_decode(&data[1..data.len()])?;
             return Some(TerminalEvent::KeyboardLevel(level));
         }
@@ -809,8 +813,9 @@ impl Matcher for MouseEventMatcher {
         // "\x1b[<{event};{row};{col}(m|M)"
         let mut nums = numbers_decode(&data[3..data.len() - 1], b';');
         let event = nums.next()?;
-        let col = nums.next()? - 1;
-        let row = nums.next()? - 1;
+        // coordinates are one-based, zero is not a valid report
+        let col = nums.next()?.checked_sub(1)?;
+        let row = nums.next()?.checked_sub(1)?;
 
         let mut mode = KeyMod::from_bits(((event >> 2) & 7) as u32);
         if data[data.len() - 1] == b'M' {
@@ -921,7 +926,7 @@ impl Matcher for UTF8Matcher {
     }
 
     fn decode(&self, data: &[u8]) -> Option<Self::Item> {
-        Some(utf8_decode(data))
+        utf8_decode(data)
     }
 }
 
@@ -948,9 +953,10 @@ impl Matcher for CursorPositionMatcher {
     fn decode(&self, data: &[u8]) -> Option<Self::Item> {
         // "\x1b[{row};{col}R"
         let mut nums = numbers_decode(&data[2..data.len() - 1], b';');
+        // coordinates are one-based, zero is not a valid report
         Some(TerminalEvent::CursorPosition(Position {
-            row: nums.next()? - 1,
-            col: nums.next()? - 1,
+            row: nums.next()?.checked_sub(1)?,
+            col: nums.next()?.checked_sub(1)?,
         }))
     }
 }
@@ -1185,7 +1191,7 @@ const COLORS: [RGBA; 16] = [
     RGBA::new(255, 255, 255, 255),
 ];
 
-fn sgr_color<'a>(mut cmds: impl Iterator<Item = &'a [u8]>) -> Option<RGBA> {
+fn sgr_color<'a>(mut cmds: impl Iterator<Item = &'a [u8]>, sub_params: bool) -> Option<RGBA> {
     match number_decode(cmds.next()?)? {
         5 => {
             // color from 256 color palette
@@ -1210,16 +1216,23 @@ fn sgr_color<'a>(mut cmds: impl Iterator<Item = &'a [u8]>) -> Option<RGBA> {
         2 => {
             // true color
             //
-            // It can contain either three or four components
-            // in the case of four first component is ignored
+            // Colon separated sub-parameters can contain either three or four
+            // components, in the case of four first component is ignored.
+            // Semicolon separated form has exactly three components, anything
+            // that follows is the next SGR parameter.
             match [
                 cmds.next().and_then(number_decode),
                 cmds.next().and_then(number_decode),
                 cmds.next().and_then(number_decode),
-                cmds.next().and_then(number_decode),
+                if sub_params {
+                    cmds.next().and_then(number_decode)
+                } else {
+                    None
+                },
             ] {
                 [Some(r), Some(g), Some(b), None] | [_, Some(r), Some(g), Some(b)] => {
-                    Some(RGBA::new(r as u8, g as u8, b as u8, 255))
+                    let channel = |value: usize| u8::try_from(value).ok();
+                    Some(RGBA::new(channel(r)?, channel(g)?, channel(b)?, 255))
                 }
                 _ => None,
             }
@@ -1238,9 +1251,9 @@ fn sgr_face(data: &[u8]) -> FaceModify {
         let args_empty = args.size_hint().0 == 0;
         let mut sgr_color_thunk = || {
             if args_empty {
-                sgr_color(&mut groups)
+                sgr_color(&mut groups, false)
             } else {
-                sgr_color(&mut args)
+                sgr_color(&mut args, true)
             }
         };
         match cmd {
@@ -1252,18 +1265,20 @@ fn sgr_face(data: &[u8]) -> FaceModify {
             }
             // bold
             Some(1) => face.bold = Some(true),
-            Some(21) => face.bold = Some(false),
+            Some(22) => face.bold = Some(false),
             // italic
             Some(3) => face.italic = Some(true),
             Some(23) => face.italic = Some(false),
             // underline
             Some(4) => match args.next().and_then(number_decode) {
+                Some(0) => face.underline = Some(UnderlineStyle::None),
                 Some(2) => face.underline = Some(UnderlineStyle::Double),
                 Some(3) => face.underline = Some(UnderlineStyle::Curly),
                 Some(4) => face.underline = Some(UnderlineStyle::Dotted),
                 Some(5) => face.underline = Some(UnderlineStyle::Dashed),
                 _ => face.underline = Some(UnderlineStyle::Straight),
             },
+            Some(21) => face.underline = Some(UnderlineStyle::Double),
             Some(24) => face.underline = Some(UnderlineStyle::None),
             // blink
             Some(5) => face.blink = Some(true),
@@ -1306,12 +1321,13 @@ fn numbers_decode(data: &[u8], sep: u8) -> impl Iterator<Item = usize> + '_ {
 // Decode positive integer number
 fn number_decode(data: &[u8]) -> Option<usize> {
     let mut result = 0usize;
-    let mut mult = 1usize;
-    for b in data.iter().rev() {
+    for b in data.iter() {
         match b {
             b'0'..=b'9' => {
-                result += (b - b'0') as usize * mult;
-                mult *= 10;
+                // numbers that do not fit `usize` are clamped to `usize::MAX`
+                result = result
+                    .saturating_mul(10)
+                    .saturating_add((b - b'0') as usize);
             }
             _ => return None,
         }
@@ -1321,9 +1337,10 @@ fn number_decode(data: &[u8]) -> Option<usize> {
 
 // Convert slice to a character
 //
-// NOTE: this function must only be used on a validated buffer
-// containing single UTF8 character.
-fn utf8_decode(slice: &[u8]) -> char {
+// NOTE: this function must only be used on a buffer that has the shape
+// of a single UTF8 character (as checked by [utf8_nfa]). Returns `None`
+// if assembled code is not a unicode scalar value (surrogate or above U+10FFFF).
+fn utf8_decode(slice: &[u8]) -> Option<char> {
     let first = slice[0] as u32;
     let mut code: u32 = match slice.len() {
         1 => first & 127,
@@ -1336,7 +1353,7 @@ fn utf8_decode(slice: &[u8]) -> char {
         code <<= 6;
         code |= (*byte as u32) & 63;
     }
-    unsafe { std::char::from_u32_unchecked(code) }
+    char::from_u32(code)
 }
 
 #[derive(Debug, Clone, Copy)]
